@@ -256,113 +256,10 @@ harness! {
 }
 
 
-// ---- the key schedule, observed where the real code hands the key to the cipher: `btea` is replaced by a stub that
-// RECORDS the key it is given, and the private mixing function `obscure` by a stub that records its arguments and returns
-// an arbitrary 32-bit value (proving two copies of its 64-bit multiplications equal is a multiplier miter: no answer from
-// CaDiCaL in 20 min or kissat in 10).  Decided: the table selected by bit 23 of the time, `time >> 6`, `address << 8`, the
-// word handed to `obscure` for each of the four key words, the seed, the final mask, the order of the words.  `obscure`
-// itself is compared with the reference in `obscure_equiv`.  Natively the real cipher runs on a block encrypted by the
-// independent encryptor under the independent key, so a wrong key shows as a wrong plaintext.
-#[cfg(kani)]
-static mut KEY_SEEN: [u32; 4] = [0; 4];
-#[cfg(kani)]
-static mut KEY_CALLS: u32 = 0;
-#[cfg(kani)]
-fn btea_record(_v: &mut [u32], k: &[u32]) {
-    assert!(k.len() == 4, "PROP: the cipher is given a four-word key");
-    unsafe { KEY_SEEN = [k[0], k[1], k[2], k[3]]; KEY_CALLS += 1; }
-}
-#[cfg(kani)]
-static mut OBS_ARGS: [(i64, u64); 4] = [(0, 0); 4];
-#[cfg(kani)]
-static mut OBS_RET: [i64; 4] = [0; 4];
-#[cfg(kani)]
-static mut OBS_N: usize = 0;
-#[cfg(kani)]
-fn obscure_rec(key: i64, seed: u64) -> i64 {
-    let r: i64 = kani::any();
-    kani::assume(r >= 0 && r <= 0xffff_ffff);
-    unsafe {
-        if OBS_N < 4 { OBS_ARGS[OBS_N] = (key, seed); OBS_RET[OBS_N] = r; }
-        OBS_N += 1;
-    }
-    r
-}
-harness! {
-    #[kani::unwind(30)]
-    #[kani::stub(alloc::fmt::format, crate::stubs::fmt_stub)]
-    #[kani::stub(libm::atan2, crate::stubs::k::atan2_stub)]
-    #[kani::stub(rs1090::decode::flarm::btea, btea_record)]
-    #[kani::stub(rs1090::decode::flarm::obscure, obscure_rec)]
-    /// every timestamp (all 2^32), every 24-bit address, both address kinds; the block is one concrete value (the key does
-    /// not depend on it, and a symbolic block drags the whole position / track arithmetic into the formula: 443 s vs seconds)
-    fn key_schedule(s) {
-        let words: [u32; 5] = [0x1234_5678, 0x0abc_def0, 0x0fed_cba9, 0x0765_4321, 0x0357_9bdf];
-        let ts = s.u32();
-        let addr = s.u32();
-        let icao_kind = s.bool();
-        let tail: [u8; 2] = [0, 0];
-        vassume!(addr < (1 << 24));
-        let magic = if icao_kind { 0x10 } else { 0x20 };
-        let msg = packet(addr, magic, &cipher_words(&words, ts, addr), tail);
-        #[cfg(kani)]
-        unsafe { KEY_CALLS = 0; OBS_N = 0; }
-        let r = Flarm::from_record(ts, &[45.0, 5.0], &msg[..]);
-        vcover!(r.is_ok());
-        #[cfg(kani)]
-        unsafe {
-            let time = ts as i64;
-            let address = ((addr << 8) & 0xffffff) as i64;
-            let table = if (time >> 23) & 1 != 0 { &KEY1B } else { &KEY1 };
-            vassert!(KEY_CALLS == 1, "the block is deciphered exactly once");
-            vassert!(OBS_N == 4, "four key words are derived");
-            let mut i = 0;
-            while i < 4 {
-                vassert!(OBS_ARGS[i].0 == table[i] ^ ((time >> 6) ^ address) && OBS_ARGS[i].1 == 0x045D9F3B,
-                         "key word i is mixed from table[i] ^ (time >> 6) ^ (address << 8) with the schedule's seed (table chosen by bit 23 of the time)");
-                vassert!(KEY_SEEN[i] == (OBS_RET[i] ^ 0x87B562F4) as u32, "the cipher key is the masked mixing result, words in order");
-                i += 1;
-            }
-        }
-        #[cfg(not(kani))]
-        {
-            vassert!(r.is_ok(), "well-formed packet decodes");
-            if let Ok(f) = &r {
-                vassert!(f.decoded.len() == 5 && f.decoded[0] == words[0] && f.decoded[1] == words[1] && f.decoded[2] == words[2]
-                         && f.decoded[3] == words[3] && f.decoded[4] == words[4], "the cipher key is the one derived from timestamp and address by the key schedule");
-            }
-        }
-        core::mem::forget(r);
-    }
-}
-
-/// the private mixing function, reached as the replacement of this public dummy (Kani resolves stub paths regardless of privacy)
-pub fn obscure_kernel(_key: i64, _seed: u64) -> i64 { unreachable!() }
-harness! {
-    #[kani::unwind(4)]
-    #[kani::stub(obscure_kernel, rs1090::decode::flarm::obscure)]
-    #[kani::solver(kissat)]
-    /// obscure(key, 0x045D9F3B) equals the reference mixing function for every 64-bit key.  Natively: one block through
-    /// from_record with a timestamp / address derived from the tape (the real schedule and cipher against the independent ones).
-    fn obscure_equiv(s) {
-        let key = s.u64() as i64;
-        #[cfg(kani)]
-        {
-            let got = obscure_kernel(key, 0x045D9F3B);
-            vcover!(got != 0);
-            vassert!(got == obscure_ref(key, 0x045D9F3B), "obscure() is the schedule's mixing function");
-        }
-        #[cfg(not(kani))]
-        {
-            let ts = key as u32;
-            let addr = ((key >> 32) as u32) & 0xffffff;
-            let words = [0x1234_5678u32, 0x9abc_def0, 0x0fed_cba9, 0x8765_4321, 0x1357_9bdf];
-            let msg = packet(addr, 0x10, &cipher_words(&words, ts, addr), [0, 0]);
-            let r = Flarm::from_record(ts, &[45.0, 5.0], &msg[..]);
-            vassert!(matches!(&r, Ok(f) if f.decoded == words), "obscure() is the schedule's mixing function");
-        }
-    }
-}
+// the key-schedule harnesses name the private `obscure` in a stub attribute: a change of its signature makes the Kani build
+// fail, so they live in their own cargo feature (c15obs) and are built separately - the other C15 harnesses keep working
+#[cfg(feature = "c15obs")]
+include!("c15_obs.rs");
 
 // ---- the accepted length cut by concern (quick tier: the quick command has 900 s for build + run, and the harnesses that
 // take every block AND every reference at once need 8-13 min): each part makes the bits that feed one group of fields
@@ -583,5 +480,5 @@ cipher_word!(cipher_word3, 3);
 cipher_word!(cipher_word4, 4);
 
 registry!(total_len26, total_len00, total_len03, total_len04, total_len19, total_len25, total_len27, total_len40,
-          fields_discrete, fields_discrete_q, total_len26_id, part26_position, part26_velocity, part26_discrete, key_schedule, obscure_equiv,
+          fields_discrete, fields_discrete_q, total_len26_id, part26_position, part26_velocity, part26_discrete,
           pos_lat_a_00, pos_lat_a_01, pos_lat_a_02, pos_lat_a_03, pos_lat_a_04, pos_lat_a_05, pos_lat_a_06, pos_lat_a_07, pos_lon_a_00, pos_lon_a_01, pos_lon_a_02, pos_lon_a_03, pos_lon_a_04, pos_lon_a_05, pos_lon_a_06, pos_lon_a_07, pos_lon_a_08, pos_lon_a_09, pos_lon_a_10, pos_lon_a_11, pos_lon_a_12, pos_lon_a_13, pos_lon_a_14, pos_lon_a_15, pos_lat_b_00, pos_lat_b_01, pos_lat_b_02, pos_lat_b_03, pos_lat_b_04, pos_lat_b_05, pos_lat_b_06, pos_lat_b_07, pos_lon_b_00, pos_lon_b_01, pos_lon_b_02, pos_lon_b_03, pos_lon_b_04, pos_lon_b_05, pos_lon_b_06, pos_lon_b_07, pos_lon_b_08, pos_lon_b_09, pos_lon_b_10, pos_lon_b_11, pos_lon_b_12, pos_lon_b_13, pos_lon_b_14, pos_lon_b_15, pos_lat_c_00, pos_lat_c_01, pos_lat_c_02, pos_lat_c_03, pos_lat_c_04, pos_lat_c_05, pos_lat_c_06, pos_lat_c_07, pos_lon_c_00, pos_lon_c_01, pos_lon_c_02, pos_lon_c_03, pos_lon_c_04, pos_lon_c_05, pos_lon_c_06, pos_lon_c_07, pos_lon_c_08, pos_lon_c_09, pos_lon_c_10, pos_lon_c_11, pos_lon_c_12, pos_lon_c_13, pos_lon_c_14, pos_lon_c_15, cipher_word0, cipher_word1, cipher_word2, cipher_word3, cipher_word4);
